@@ -58,9 +58,9 @@ RULE = ('magnitude-differential: C01 generators (random, constructed quotient ti
         'non-score evaluator: identical outcomes. exact-types: no float in PureProportionality seats, split approvals, exact means, Gregory transfer tallies. '
         'non-trivial = result contains a tie, or k > 2^53, or a party / candidate exactly on a line; distinct by case hash')
 PARTIAL = ['every configuration of the registry now has a scale theorem or a proved refutation (docs/C11.md lists them); what stays partial: majority judgment with the DEFAULT tie-break is proved scale-free '
-           'on balanced score dictionaries (complete ballots) only - on partial ballots it is proved NOT scale-free (known finding C11-mj-default-scale)',
+           'on balanced score dictionaries (complete ballots) only (repaired evaluator: C11_scale_mj_default_repaired_partial); on partial ballots the repaired rule has no crash outcome at any scale (C11_scale_mj_default_no_crash; finding C11-mj-default-scale fixed by fixes/C12-mj-default-exhausted), that its ANSWER is scale-free there is stated (C11_scale_mj_default_repaired_full_statement) and decided per explored case',
            'the ORDER of the list AlternativeThresholds returns (mean rank, then set iteration order) is not modelled: the selector theorems are about the set of passing parties',
-           'score-family evaluators materialise one list element per voter (known finding C11-score-materialises): their scale factors stay <= 1000 in the metamorphic stream; the theorems hold for every factor',
+           'the capped truncation of fixes/C12-truncation-middle is not homogeneous for the SUM of a candidate whose scores the configured cut-off would wipe out (C11_scale_score_truncation_sum_capped_refuted); no registered configuration truncates',
            'float-freeness of the implementation is by construction a per-case observation (the models compute in Q)']
 TRUSTED = []
 KS = [2, 3, 7, 10 ** 6, 10 ** 25 + 7]
@@ -173,10 +173,9 @@ def scale_metamorphic(ctx, stream, count, rng):
         if why:
             bad += 1
             ctx.checker_false += 1
-            # known class (narrowed after the C12 fix: commit): only a crash at one scale vs an answer at the other
-            crash = (base[0] == 'err') != (sc[0] == 'err')
-            ctx.report(stream, case, str(sc[1:]), str(base[1:]), '%s: %s' % (e['name'], why),
-                       known_class=lambda c, io, mo, crash=crash: 'C11-mj-default-scale' if c.get('evaluator') == 'mj_default' and crash else None)
+            # wave 6: C11-mj-default-scale is repaired (fixes/C12-mj-default-exhausted: no StatisticsError at any scale): every
+            # difference between the two scales is a violation
+            ctx.report(stream, case, str(sc[1:]), str(base[1:]), '%s: %s' % (e['name'], why))
         elif len(ctx.samples) < 3 and tie and k > 2 ** 53:
             ctx.samples.append(dict(stream=stream, case=case, impl=str(sc[1]), model='same as unscaled: ' + str(base[1])))
     ctx.streams[stream] = dict(cases=n, deviations=bad)
@@ -209,10 +208,8 @@ def exhaustive_small(ctx, stream):
                         if base[0] != sc[0] or b != s2:
                             bad += 1
                             ctx.checker_false += 1
-                            crash = (base[0] == 'err') != (sc[0] == 'err')
                             ctx.report(stream, dict(kind='scale', evaluator=name, profile=prof, n=seats, k=jq(q(k))), str(sc[1:]), str(base[1:]),
-                                       '%s: outcome changes under %s-fold scaling' % (name, k),
-                                       known_class=lambda c, io, mo, crash=crash: 'C11-mj-default-scale' if c.get('evaluator') == 'mj_default' and crash else None)
+                                       '%s: outcome changes under %s-fold scaling' % (name, k))
     ctx.dist['stream:' + stream] += n
     ctx.streams[stream] = dict(cases=n, deviations=bad, exhaustive=True)
 
@@ -913,23 +910,25 @@ def exact_type_checks(ctx, stream, count, rng):
 
 
 def score_magnitude_check(ctx, stream):
-    """known finding C11-score-materialises: the score family builds one list element per voter"""
+    """finding C11-score-materialises (fixed, fixes/C12-score-counted): the score family built one list element per voter; the
+    repaired aggregation works on the (score -> count) dictionary, so every score-family evaluator answers at 10^12-fold counts -
+    the same outcome as unscaled (C11_scale_score_voting, C12_counted_aggregate) - within the time limit"""
     import votelib.evaluate.cardinal as card
-    prof = [[[[1, 3], [2, 1]], 2], [[[1, 0], [2, 2]], 1]]
-    ctx.evaluations += 1
-    ctx.dist['stream:' + stream] += 1
-    base = common.call_impl(lambda: card.ScoreVoting('sum').evaluate(evalreg.to_python('score', prof), 1), 2)
-    big = common.call_impl(lambda: card.ScoreVoting('sum').evaluate(evalreg.to_python('score', prof, scale=10 ** 9), 1), 1)
-    case = dict(kind='score-magnitude', profile=prof, k=10 ** 9)
-    if big[0] == 'ok' and base[0] == 'ok' and big[1] == base[1]:
-        ctx.notes.append('known finding C11-score-materialises no longer reproduces (score voting answered at 10^9-fold counts)')
-    elif big[0] == 'err' and big[1] in (common.E['TIMEOUT'], common.E['OTHER']):
-        ctx.report(stream, case, str(big[1:]), str(base[1:]), 'score voting gives no answer for 10^9-fold vote counts',
-                   known_class=lambda c, io, mo: 'C11-score-materialises')
-    else:
-        ctx.checker_false += 1
-        ctx.report(stream, case, str(big[1:]), str(base[1:]), 'score voting outcome changes under 10^9-fold scaling')
-    ctx.streams[stream] = dict(cases=1, deviations=0)
+    prof = [[[[1, 3], [2, 1]], 2], [[[1, 0], [2, 2]], 1], [[[1, 2]], 1]]
+    bad = 0
+    for nm, mk in (('score_sum', lambda: card.ScoreVoting('sum')), ('score_mean', lambda: card.ScoreVoting('mean')),
+                   ('score_median_low', lambda: card.ScoreVoting('median_low')), ('score_mean_min_trunc', lambda: card.ScoreVoting('mean', unscored_value='min', truncation=Fraction(1, 4))),
+                   ('mj_default', lambda: card.MajorityJudgment()), ('mj_plus', lambda: card.MajorityJudgment(tie_breaking='plus')), ('star', lambda: card.STAR())):
+        ctx.evaluations += 1
+        ctx.dist['stream:' + stream] += 1
+        base = common.call_impl(lambda: mk().evaluate(evalreg.to_python('score', prof), 1), 2)
+        big = common.call_impl(lambda: mk().evaluate(evalreg.to_python('score', prof, scale=10 ** 12), 1), 2)
+        case = dict(kind='score-magnitude', evaluator=nm, profile=prof, k=10 ** 12)
+        if not (big[0] == 'ok' and base[0] == 'ok' and big[1] == base[1]):
+            bad += 1
+            ctx.checker_false += 1
+            ctx.report(stream, case, str(big[1:]), str(base[1:]), '%s: no answer / another outcome at 10^12-fold vote counts' % nm)
+    ctx.streams[stream] = dict(cases=7, deviations=bad)
 
 
 def corpus():
@@ -957,6 +956,8 @@ def replay_case(ctx, c, stream):
         if (base[0], base[1]) != (sc[0], sc[1]):
             ctx.checker_false += 1
             ctx.report(stream, c, str(sc[1:]), str(base[1:]), '%s: outcome changes under %s-fold scaling' % (c['evaluator'], c['k']))
+    elif c.get('kind') == 'score-magnitude':
+        score_magnitude_check(ctx, stream)
     elif c.get('unit') == 'threshold':
         ctx.differential(stream, [c], c16.thr_model_line, thr_impl, canon=c16.thr_canon, nontrivial=lambda cc: True, spec=thr_spec)
     elif c.get('unit') == 'conditioned_ha':
